@@ -133,7 +133,13 @@ def once_oracle(res, scn):
             # a network error while the GOAWAY was still unread is a legitimate race; a
             # protocol-level failure means the client knew the stream was refused
             if out is not None and out.get("exc") in ("RemoteProtocolError", "LocalProtocolError"):
-                w.violate("C14", "refused-stream-not-resent:%s" % out["exc"],
+                msg = out.get("msg") or ""
+                # two root causes: frames following the GOAWAY are rejected by h2's closed
+                # client state machine (the ConnectionTerminated event of that batch is
+                # lost), or the GOAWAY was seen while the request was still sending
+                cause = ("frames-after-goaway" if "ConnectionState.CLOSED" in msg
+                         and "ConnectionTerminated" not in msg else "seen-while-sending")
+                w.violate("C14", "refused-stream-not-resent:%s" % cause,
                           {"token": tok, "sid": sid, "last": last, "msg": out.get("msg")})
                 return
 
